@@ -118,3 +118,18 @@ void h_constants(void){
   OBS(r1);
   REACHED();
 }
+
+/* reshape to a compile-time CONSTANT target (2,3) from a symbolic run-time source shape: same acceptance and result as the all-run-time call with target {2,3} */
+void h_reshape_ctdst(void){
+  u64 s[3], ref[2] = {0,0}, nref = 0, o[2] = {0,0}, n = 0; u32 d[2] = {2, 3};
+  for (int i = 0; i < 3; i++) s[i] = in_u64(1, MAXE);
+  int r0 = k_c9_reshape(0, 0, s, d, ref, &nref);
+  u32 ks = KA, build = BUILD;
+  int r = build ? k_c9_reshape_ctdst_utl(ks, s, o, &n) : k_c9_reshape_ctdst(ks, s, o, &n);
+  ASSERT(r0 == (s[0]*s[1]*s[2] == 6), "all-run-time reshape accepts exactly the sources with 6 elements (NumPy)");
+  ASSERT(r == r0, "constant target: acceptance equals the all-run-time call");
+  if (r0){ ASSERT(n == 2 && o[0] == 2 && o[1] == 3, "constant target: result shape (2,3)"); }
+  u64 c[2] = {0,0}, nc = 0; int rc = build ? k_c9_reshape_ctct_utl(c, &nc) : k_c9_reshape_ctct(c, &nc);
+  ASSERT(rc == 1 && nc == 2 && c[0] == 2 && c[1] == 3, "all-constant reshape (1,3,2) -> (2,3) folded in the type system gives the run-time result");
+  OBS(r); REACHED();
+}
